@@ -27,7 +27,7 @@ ASSUMPTIONS = [
 ]
 SANITY = ["read_all_runs", "read_all_runs_with_tick", "read_all_runs_with_fault", "read_all_runs_latched",
           "single_reads_with_fault", "single_reads_raising"]
-BOUNDS = {"quick": "single reads: 3 images, 1 fault; read_all: 2 images, d<=1", "thorough": "single reads: 6 images, holes at every value location, 1 fault; read_all: 4 images, d<=2 on banks with <= 16 locations, d<=1 otherwise with all last-location boundaries"}
+BOUNDS = {"quick": "single reads: 3 images, 1 fault; read_all: 2 images, d<=1; all 64 addresses x gear/device on 5 values + 2 banks", "thorough": "single reads: 6 images, holes at every value location, 1 fault; read_all: 4 images, d<=2 on banks with <= 16 locations, d<=1 otherwise with all last-location boundaries"}
 
 GEAR_ADDR, DEV_ADDR = 3, 5
 
